@@ -65,7 +65,15 @@ type WorkerResult struct {
 	Violation *ReplayFile          `json:"violation,omitempty"`
 	LogHash   string               `json:"log_hash,omitempty"`
 	Extra     map[string]int       `json:"extra,omitempty"`
+	// Enumerated counts runs whose leading choices were forced by an
+	// exhaustive enumeration (fault vectors of C20).
+	Enumerated int `json:"enumerated,omitempty"`
 }
+
+// Prefixes maps a property to the function that forces the leading choices of
+// run i (nil result: nothing forced).  Used for exhaustive enumeration of one
+// dimension.
+var Prefixes = map[string]func(tier string, run int) []uint32{}
 
 // RunSeed derives the tape seed of run i of a property under VERIF_SEED.
 func RunSeed(seed uint64, prop string, i int) uint64 {
@@ -114,6 +122,12 @@ func RunBatch(prop, tier string, seed uint64, start, count int, known map[string
 		}
 		watchdogEnter(i)
 		t := tape.New(RunSeed(seed, prop, i))
+		if pf := Prefixes[prop]; pf != nil {
+			if prefix := pf(tier, i); prefix != nil {
+				t = tape.NewWithPrefix(RunSeed(seed, prop, i), prefix)
+				res.Enumerated++
+			}
+		}
 		r := NewRun(t, prop, tier, known)
 		if logTo != nil {
 			r.Logged = &strings.Builder{}
